@@ -26,14 +26,14 @@ Structural(c) == c \in {
 \* verification vectors of zero sharings: entry 0 is the identity by construction
 ZeroVV(c) == c \in {"/verificationVector/verification_vector/data[]", "/ZeroR1/verificationVector/verification_vector/data[]",
                     "/zeroR1/verificationVector/verification_vector/data[]", "/ZeroVerificationVector/verification_vector/data[]"}
-IsZeroSharing(proto, c) == ZeroVV(c) /\ (proto \in {"hjky", "redist", "redistAnchor", "lindell22"})
+IsZeroSharing(proto, c) == ZeroVV(c) /\ (proto \in {"hjky", "redist", "redistAnchor", "redistNew", "lindell22"})
 RandomLeaf(proto, lf) == ~Structural(lf.c) /\ ~(IsZeroSharing(proto, lf.c) /\ lf.i = 0)
 
 \* leaves that are g^s for a scalar s the sender drew from its reader (dealing / zero columns, nonce commitment)
 DirectDraw(proto, lf) ==
   \/ proto = "hjky" /\ lf.c = "/verificationVector/verification_vector/data[]" /\ lf.i >= 1
-  \/ proto \in {"redist", "redistAnchor"} /\ lf.c = "/ZeroR1/verificationVector/verification_vector/data[]" /\ lf.i >= 1
-  \/ proto \in {"redist", "redistAnchor"} /\ lf.c = "/NextVerificationVectorContribution/verification_vector/data[]" /\ lf.i >= 1
+  \/ proto \in {"redist", "redistAnchor", "redistNew"} /\ lf.c = "/ZeroR1/verificationVector/verification_vector/data[]" /\ lf.i >= 1
+  \/ proto \in {"redist", "redistAnchor", "redistNew"} /\ lf.c = "/NextVerificationVectorContribution/verification_vector/data[]" /\ lf.i >= 1
   \/ proto = "gennaro" /\ lf.r = 2 /\ lf.c = "/verificationVector/verification_vector/data[]"
   \/ proto = "canetti" /\ lf.c = "/Message/X/verification_vector/data[]"
   \/ proto = "lindell22" /\ lf.c = "/zeroR1/verificationVector/verification_vector/data[]" /\ lf.i >= 1
@@ -52,7 +52,7 @@ AnyOf(o) == o.by[CHOOSE k \in DOMAIN o.by : TRUE]
 JointChange(proto, A, B) ==
   CASE proto = "session" -> AnyOf(A).sid # AnyOf(B).sid
     [] proto = "hjky" -> AnyOf(A).vv # AnyOf(B).vv
-    [] proto \in {"redist", "redistAnchor"} -> AnyOf(A).pk = AnyOf(B).pk /\ AnyOf(A).vv # AnyOf(B).vv
+    [] proto \in {"redist", "redistAnchor", "redistNew"} -> AnyOf(A).pk = AnyOf(B).pk /\ AnyOf(A).vv # AnyOf(B).vv
     [] proto \in {"gennaro", "canetti"} -> AnyOf(A).pk # AnyOf(B).pk
     [] proto = "lindell22" -> A.pk = B.pk /\ AnyOf(A).R # AnyOf(B).R
     [] OTHER -> FALSE
@@ -74,7 +74,7 @@ CmpOK(e) ==
                /\ (a.f = e.p /\ RandomLeaf(e.proto, a)) => a.v # b.v           \* the party's randomised values change
           /\ JointChange(e.proto, e.outA, e.outB)
   \* every party consumes its own stream, and the sampled public values are g^s for chunks s of the sender's stream
-  /\ \A i \in SeqSet(e.parties) : (K(i) \in DOMAIN e.consumedB /\ (e.proto \notin {"redist", "redistAnchor"})) => Total(e.consumedB[K(i)]) > 0
+  /\ \A i \in SeqSet(e.parties) : (K(i) \in DOMAIN e.consumedB /\ (e.proto \notin {"redist", "redistAnchor", "redistNew"})) => Total(e.consumedB[K(i)]) > 0
   /\ \A n \in 1..Len(e.LB) : DirectDraw(e.proto, e.LB[n]) => e.LB[n].v \in SeqSet(e.drawnB[K(e.LB[n].f)])
 
 Check(e) == CASE e.a = "hdr" -> TRUE [] e.a = "cmp" -> CmpOK(e) [] OTHER -> FALSE
